@@ -32,7 +32,7 @@ TECHNIQUE = ("runtime monitoring: control-wire recorder + FakeTor config store +
 LEVEL_TEXT = ("Held on the executions observed: every cell of an enumerated table (existing SocksPort "
               "configuration x requested port(s) x public entry point, incl. two-call histories; ~16 000 cells "
               "quick, ~580 000 thorough) and every connect-outcome sequence of length 2 (quick) / 3 (thorough) "
-              "over 11 outcome kinds for the 9050/9150 fallback. Enumeration of the listed forms, not a proof "
+              "over 21 outcome kinds (incl. SOCKS-level failures after a successful TCP connect) for the 9050/9150 fallback. Enumeration of the listed forms, not a proof "
               "for other SocksPort spellings; at most one clause is reported per call (root-cause order).")
 LEVEL_NOTE = ("Trusted: FakeTor GETCONF/SETCONF semantics for the SocksPort family (vf.faketor.sockstor), "
               "vf.refs.kvline, the reference SocksPort-line reader in sockstor.parse_first, Twisted's "
@@ -41,8 +41,11 @@ RULE = ("workload A: a case = (existing SocksPort lines as FakeTor reports them 
         "__SocksPort, requested port(s): none / first word of an existing entry / absent TCP, host:port, "
         "unix / absent but substring of an existing line / alias spelling, entry point). Distinct = hash "
         "of that tuple. Non-trivial = the call reached a verdict clause (use-existing or add) with at "
-        "least the GETCONF answered. workload B: a case = (host, port, sequence of connect outcomes: "
-        "success | one of 8 ConnectError classes | 2 non-ConnectError failures).")
+        "least the GETCONF answered. Tor-object histories: a Tor owning a loaded TorConfig (ctor / get_config) "
+        "whose view diverged from Tor (9 preludes) before the first stream_via/dns_resolve/dns_resolve_ptr/"
+        "_default_socks_endpoint/web_agent. workload B: a case = (host, port, sequence of connect outcomes: "
+        "success | one of 8 ConnectError classes | 2 non-ConnectError failures | TCP success followed by a SOCKS "
+        "error reply 1..8 or a drop before/after the method reply).")
 ASSUMPTIONS = [
     "GETCONF SocksPort answers with Tor's spelling 'SocksPort', one line per entry verbatim, bare key when unset; "
     "GETCONF __SocksPort of an unset option answers the bare key (control-spec 3.3)",
@@ -54,8 +57,12 @@ ASSUMPTIONS = [
     "(re-listing nothing or 9050); TorConfig methods called without a port may raise when the first entry is unusable",
     "requests that alias an existing entry under another spelling (9050 vs 127.0.0.1:9050), that name an IPv6/zero "
     "entry, or that repeat an entry with option words are counted, and judged only on the shape of any SETCONF written",
-    "fallback: the reactor reports a connect outcome only after connectTCP returned; a SOCKS-level failure after a "
-    "successful TCP connect is not generated",
+    "fallback: the reactor reports a connect outcome only after connectTCP returned; after a successful TCP connect "
+    "the SOCKS5 dialogue is played (success, error reply REP 1..8 followed by close, close before/after the "
+    "method reply); those SOCKS-level failures are not connection errors: no further port, and the failure reported "
+    "must not be a ConnectError / an error of another attempt (and must carry the reply code if it has a code)",
+    "Tor-object histories: the loaded TorConfig's view is made to differ from Tor only in ways that leave Tor's own "
+    "configuration untouched (rejected save, rejected save still in flight, unsaved in-place edit)",
     "an API Deferred still pending at quiescence is counted (unresolved), not judged",
 ]
 TRUSTED_BASE = ["vf.faketor.core.FakeTor + vf.faketor.sockstor.SocksStore (SocksPort family, 513 on malformed lines)",
@@ -75,6 +82,7 @@ FLOORS = {
     "quick": {"evaluations": 1000, "use_existing_checked": 300, "add_checked": 200, "setconf_decoded": 150,
               "endpoint_targets_compared": 500, "fallback_sequences_judged": 35,
               "fallback_attempts_checked": 60, "fallback_outcomes_compared": 30,
+              "fallback_socks_failures_compared": 80, "reach:txtorcon.controller:Tor._default_socks_endpoint": 400,
               "reach:txtorcon.endpoints:_create_socks_endpoint": 400,
               "reach:txtorcon.endpoints:TorClientEndpoint.connect": 90,
               "reach:txtorcon.torconfig:TorConfig.create_socks_endpoint": 150,
@@ -82,6 +90,7 @@ FLOORS = {
     "thorough": {"evaluations": 20000, "use_existing_checked": 6000, "add_checked": 4000, "setconf_decoded": 3000,
                  "endpoint_targets_compared": 10000, "fallback_sequences_judged": 250,
                  "fallback_attempts_checked": 450, "fallback_outcomes_compared": 200,
+                 "fallback_socks_failures_compared": 800,
                  "reach:txtorcon.endpoints:_create_socks_endpoint": 8000,
                  "reach:txtorcon.endpoints:TorClientEndpoint.connect": 1500},
 }
